@@ -46,6 +46,9 @@ type c15Case struct {
 	// GOARCH: "" = the amd64 build of the sandbox command and of the target; "386" = 386 builds of both (valid policies
 	// only; the policy is then one for the i386 table)
 	GOARCH string `json:"goarch,omitempty"`
+	// NNPFlag: if set, the spelling of the no-new-privs option on the command line ("absent" = not given at all),
+	// instead of -no-new-privs=<NNP>
+	NNPFlag string `json:"nnp_flag,omitempty"`
 }
 
 var c15Defects = []string{"missing-file", "empty-file", "yaml-syntax", "wrong-type", "unknown-syscall", "unknown-syscall-conditional", "unknown-action",
@@ -402,7 +405,14 @@ func runSandbox(c *c15Case, text string, writeFile bool) (*c15Run, error) {
 			args = nil // the flag's default value
 		}
 	}
-	args = append(args, fmt.Sprintf("-no-new-privs=%v", c.NNP), target, "arg1")
+	switch c.NNPFlag {
+	case "":
+		args = append(args, fmt.Sprintf("-no-new-privs=%v", c.NNP))
+	case "absent":
+	default:
+		args = append(args, c.NNPFlag)
+	}
+	args = append(args, target, "arg1")
 	cmd := exec.CommandContext(ctx, sb, args...)
 	cmd.Dir = cwd
 	cmd.Env = append([]string{"PATH=/usr/bin:/bin", "HOME=" + home, "PROBE_MARKER=" + marker, "PROBE_JOB=" + jobPath}, c.Env...)
